@@ -4,7 +4,7 @@ actual deltas at the displayed precision) on every container produced by the wor
 helpers checked directly over 16 decades, and the instruction of every baked recipe step."""
 from __future__ import annotations
 
-from .common import shard, run_cases, BASE_ASSUMPTIONS
+from .common import shard, run_cases, BASE_ASSUMPTIONS, repo_suite, repo_suite_job
 
 ID = 'C19'
 LEVEL = 'exploration'
@@ -33,12 +33,21 @@ def required_buckets(tier):
 
 
 def plan(tier, seed):
+    jobs = _plan(tier, seed)
+    if tier != 'quick' or False:
+        jobs = jobs + repo_suite_job()
+    return jobs
+
+
+def _plan(tier, seed):
     if tier == 'quick':
         return shard('history', 200, 8) + shard('rescale', 4, 2) + shard('recipe', 100, 3)
     return shard('history', 5000, 24) + shard('rescale', 40, 4) + shard('recipe', 3000, 12)
 
 
 def run_job(job):
+    if job['kind'] == 'repo_suite':
+        return run_cases(job, repo_suite)
     return run_cases(job, {'history': history, 'rescale': rescale, 'recipe': recipe}[job['kind']])
 
 
